@@ -20,12 +20,6 @@ Definition sgr_tok (x : tok) : bool :=
   match x with TSgr0 | TFg _ | TBg _ => true | _ => false end.
 Definition is_hide (x : tok) : bool := match x with THide => true | _ => false end.
 
-Ltac brk :=
-  repeat match goal with
-  | |- context [match ?p with _ => _ end] => destruct p eqn:?; simpl in *
-  | |- context [if ?b then _ else _] => destruct b eqn:?; simpl in *
-  end.
-
 Lemma place_parser t k : parser (place t k) = parser t.
 Proof. unfold place. destruct (kk_stay k); reflexivity. Qed.
 Lemma place_pending t k : pending (place t k) = pending t.
@@ -313,10 +307,6 @@ Proof.
     + apply recover_kitty.
     + apply recover_iterm. assumption.
 Qed.
-
-(** a fault-free draw also ends clean, provided its frames leave the parser ground and
-    nothing pending (render contract, C01/C03) -- not needed for C07; the interrupted case
-    needs NO such hypothesis for kitty and only token-class hypotheses for block / iterm2 *)
 
 (** ** New API *)
 
